@@ -34,9 +34,10 @@ func withAnchors(c *Ctx, f func(a *serverAnchors)) {
 
 func init() {
 	register("C01",
-		"Decides, on every control-flow path, the mechanism that makes one-fetch-per-unknown-key possible: the lookup's transition relation over four abstract entry states (only the unknown state becomes fetching, exactly the requests that find it fetching are registered as waiters and get the registered channel, a hit returns the stored response), the locked wrapper (lookup under the write lock; a woken waiter re-evaluates under the lock; nothing but that wrapper calls the lookup step), get-or-create of the entry in one shard critical section, the shard function, the cache middleware forwarding only non-hit states exactly once, a persisted record being loaded inside the locked lookup only (never applied over a state another request has already advanced), a reload keeping every surviving cache's entries (an in-flight fetch stays the key's only fetch), a fetcher whose downstream call succeeded publishing the response as cacheable unless no lifetime or no response was recorded, and the stored expiry being the clock plus a positive lifetime (an entry stored already expired makes every waiter the next fetcher). The schedule quantifier itself (that the Go runtime, given these shapes, yields one fetch on every interleaving) is not decided.",
+		"Decides, on every control-flow path, the mechanism that makes one-fetch-per-unknown-key possible: the lookup's transition relation over four abstract entry states (only the unknown state becomes fetching, exactly the requests that find it fetching are registered as waiters and get the registered channel, a hit returns the stored response), the locked wrapper (lookup under the write lock; a woken waiter re-evaluates under the lock; nothing but that wrapper calls the lookup step), get-or-create of the entry in one shard critical section, the shard function (stateless: no shared hasher), the cache middleware forwarding only non-hit states exactly once, a persisted record being loaded inside the locked lookup only (never applied over a state another request has already advanced), a reload keeping every surviving cache's entries (an in-flight fetch stays the key's only fetch), a fetcher whose downstream call succeeded publishing the response as cacheable unless no lifetime or no response was recorded, and the stored expiry being the clock plus a positive lifetime (an entry stored already expired makes every waiter the next fetcher). The schedule quantifier itself (that the Go runtime, given these shapes, yields one fetch on every interleaving) is not decided.",
 		nil, func(c *Ctx) {
 			withAnchors(c, func(a *serverAnchors) {
+				ruleShardStateless(c)
 				rulePassMethods(c, a)
 				ruleResetPrunes(c, "cache")
 				ruleLookup(c, a.cacheA, set("lookup-shape", "state-determined", "no-exit-unknown", "fetching-only-from-unknown", "registration", "returned-status", "hit-data", "invariant-waiters", "no-waiter-dropped", "load-on-first-lookup", "load-only-when-unknown"))
@@ -103,7 +104,7 @@ func init() {
 			})
 		})
 	register("C07",
-		"Decides, for all configured periods: a lookup in hit-for-pass state is never queued and never served a response; the marker always gets a period >= 1 (the default when the configured one is <= 0) added to the clock; it lapses through the same expiry test as hits, and that test keeps the entry through its expiry second (expired iff expiredAt < now), so the period is not cut short; the configured period is converted per cache (no value carried over from the previous cache's conversion), is what the fetcher passes and is kept in seconds (never a time.Duration squeezed into the int); the record is saved only after the entry's final state is set, and always when a store is configured (a marker without a response included), with a store lifetime that is never known to be <= 0; non-fetcher requests never complete (extend) the entry; hit-for-pass requests are forwarded once and reach the upstream with their headers untouched; the upstream transport puts no cap on connections per host (forwarded requests do not queue behind one another inside net/http). Timed histories are not decided.",
+		"Decides, for all configured periods: a lookup in hit-for-pass state is never queued and never served a response; the marker always gets a period >= 1 (the default when the configured one is <= 0) added to the clock; it lapses through the same expiry test as hits, and that test keeps the entry through its expiry second (expired iff expiredAt < now), so the period is not cut short; the configured period is converted per cache (no value carried over from the previous cache's conversion), is what the fetcher passes and is kept in seconds (never a time.Duration squeezed into the int); the record is saved only after the entry's final state is set, and always when a store is configured (a marker without a response included), with a store lifetime that is never known to be <= 0; non-fetcher requests never complete (extend) the entry; hit-for-pass requests are forwarded once and reach the upstream with their headers untouched; no lock of the server is held across the upstream call; the upstream transport puts no cap on connections per host or streams per connection (forwarded requests do not queue behind one another inside net/http). Timed histories are not decided.",
 		nil, func(c *Ctx) {
 			withAnchors(c, func(a *serverAnchors) {
 				ruleLookup(c, a.cacheA, set("state-determined", "registration", "hit-data", "expiry-applied", "expiry-exact", "invariant-expiry", "returned-status"))
@@ -111,6 +112,7 @@ func init() {
 				rulePeriodUnits(c)
 				ruleSaveUnconditional(c, a.cacheA)
 				ruleConverterPerItem(c)
+				ruleNoWaitUnderLock(c)
 				ruleLookupNilChecked(c)
 				ruleCacheMiddleware(c, a, set("ticket-discharge", "hit-for-pass-period", "completion-only-by-fetcher", "forward-once"))
 				ruleProxyMiddleware(c, a, set("withheld-on-fetch", "lifetime-plumbing"))
@@ -128,6 +130,7 @@ func init() {
 				ruleStoreLoadAtomic(c, a.cacheA)
 				ruleCompletionPaths(c, a.cacheA, set("persist-final", "persist-ttl", "expiry-value", "stores-response"))
 				ruleSaveUnconditional(c, a.cacheA)
+				ruleKeepCache(c)
 				ruleDecisionTable(c)
 				ruleBadgerCommits(c)
 				ruleWireConstants(c)
@@ -149,7 +152,7 @@ func init() {
 			})
 		})
 	register("C10",
-		"Decides that store failures cannot reach clients or strand waiters: a failed, truncated or impossible record leaves the live entry untouched (all-or-nothing adoption) and the lookup continues as a miss; every completion path drains the waiters and sets the state whatever the store write returns; the fetcher's ticket is always discharged; whatever expiry a restored record carries goes through the same expiry test as any entry (no sign or value of it is exempt); the record decoders contain no panicking-by-contract call, explicit panic or unchecked data-sized allocation and every index / fixed-width read is provably inside the data (a panic under the entry lock would wedge the key); a purge deletes the persisted record while still holding the shard lock and never takes the entry lock; the lookup never writes to the store (memory hits do not wait for it). Slow calls and flipped body bits are not decided.",
+		"Decides that store failures cannot reach clients or strand waiters: a failed, truncated or impossible record leaves the live entry untouched (all-or-nothing adoption) and the lookup continues as a miss; every completion path drains the waiters and sets the state whatever the store write returns; the fetcher's ticket is always discharged; whatever expiry a restored record carries goes through the same expiry test as any entry (no sign or value of it is exempt); the record decoders contain no panicking-by-contract call, explicit panic or unchecked data-sized allocation and every index / fixed-width read is provably inside the data (a panic under the entry lock would wedge the key); a purge deletes the persisted record while still holding the shard lock and never takes the entry lock; the lookup never writes to the store (memory hits do not wait for it); a store constructor hands out a store only with a nil error; the loader calls nothing that takes an entry lock. Slow calls and flipped body bits are not decided.",
 		nil, func(c *Ctx) {
 			withAnchors(c, func(a *serverAnchors) {
 				ruleStoreLoadAtomic(c, a.cacheA)
@@ -169,6 +172,7 @@ func init() {
 				ruleStoreSiblings(c)
 				ruleStoreOpenNonFatal(c)
 				ruleTypedNilStore(c)
+				ruleStoreCtorNilOnError(c)
 				ruleGetOrCreate(c)
 			})
 		})
@@ -177,12 +181,15 @@ func init() {
 		nil, func(c *Ctx) {
 			withAnchors(c, func(a *serverAnchors) {
 				ruleKey(c)
+				ruleProxyMiddleware(c, a, set("forward-once"))
+				ruleRawProvenance(c)
 				ruleRequestWrites(c)
 				ruleQueryEdits(c)
 				ruleKeyImmutable(c)
 				ruleUnsafeConfined(c)
 				ruleGetOrCreate(c)
 				ruleShardFunction(c)
+				ruleShardStateless(c)
 				ruleStoreKeys(c)
 				ruleStoreKeyAgreement(c)
 				ruleStoreExactKey(c)
@@ -313,7 +320,7 @@ func init() {
 			ruleEmptyResponseSection(c)
 		})
 	register("C14",
-		"Decides that Match is exactly (no hosts or host listed) and (no prefixes or some prefix of the URI) and depends on nothing else; that the four specificity classes get strictly increasing, non-zero priorities in the order prefix+host < prefix < host < none; that the list is sorted ascending by that priority (comparator over the very slice being sorted) before it is published under the write lock, and is built from the new options alone (nothing kept from the list it replaces; hosts, prefixes and name are written by the converter only); that only an element of the sorted list whose name is one of the server's own names and which matches is returned, with the sorted list as the outer loop; that the proxy resolves with the request's Host and request URI and fails with a 5xx before any upstream contact when no location or upstream is found.",
+		"Decides that Match is exactly (no hosts or host listed) and (no prefixes or some prefix of the URI) and depends on nothing else; that the four specificity classes get strictly increasing, non-zero priorities in the order prefix+host < prefix < host < none; that the list is sorted ascending by that priority (comparator over the very slice being sorted) before it is published under the write lock, and is built from the new options alone (nothing kept from the list it replaces; hosts, prefixes and name are written by the converter only); that only an element of the sorted list whose name is one of the server's own names and which matches is returned, with the sorted list as the outer loop, left early only with a match; that the proxy resolves with the request's Host and request URI and fails with a 5xx before any upstream contact when no location or upstream is found.",
 		nil, func(c *Ctx) {
 			withAnchors(c, func(a *serverAnchors) {
 				ruleMatch(c)
@@ -321,6 +328,7 @@ func init() {
 				ruleSortedPublish(c)
 				ruleLocationsFromOptions(c)
 				ruleMatchFieldsVerbatim(c)
+				ruleGetVisitsAll(c)
 				ruleNamedOnly(c)
 				ruleForwarders(c, "location")
 				ruleErrorCodes(c)
@@ -328,7 +336,7 @@ func init() {
 			})
 		})
 	register("C15",
-		"Decides which request state the proxy middleware changes before the upstream call and that each change is undone on every exit after it: on a cold (fetching) request If-None-Match, If-Modified-Since, Range and If-Range are removed or known absent at the upstream call, on every other request they are untouched; every header the middleware removed or overrode (incl. Accept-Encoding) is set back to the value read before; the upstream's Accept-Encoding override is exactly the configured value and is applied whenever one is configured (also when the client sent no Accept-Encoding); the location's configured request headers and query parameters are added next to the client's own (never set over, assigned or deleted, and added whatever the client or upstream already sent; the query is written back on every path and built on the client's own); every wildcard of a rewrite rule becomes a capture group and each rule is matched against what the previous rules produced; configured header and query values are used as written (only a leading '$' means an environment lookup); the location's response headers are added to the upstream's header before the response (and its header clone) is built; a lifetime is recorded only for fetchers; the original next handler is restored and run once. What the upstream receives byte for byte is not decided.",
+		"Decides which request state the proxy middleware changes before the upstream call and that each change is undone on every exit after it: on a cold (fetching) request If-None-Match, If-Modified-Since, Range and If-Range are removed or known absent at the upstream call, on every other request they are untouched; every header the middleware removed or overrode (incl. Accept-Encoding) is set back to the value read before; the upstream's Accept-Encoding override is exactly the configured value and is applied whenever one is configured (also when the client sent no Accept-Encoding); the location's configured request headers and query parameters are added next to the client's own (never set over, assigned or deleted, and added whatever the client or upstream already sent; the query is written back on every path and built on the client's own); every wildcard of a rewrite rule becomes a capture group that also matches an empty remainder and each rule is matched against what the previous rules produced; configured header and query values are used as written (only a leading '$' means an environment lookup); the location's response headers are added to the upstream's header before the response (and its header clone) is built; a lifetime is recorded only for fetchers; the original next handler is restored and run once. What the upstream receives byte for byte is not decided.",
 		nil, func(c *Ctx) {
 			withAnchors(c, func(a *serverAnchors) {
 				ruleProxyMiddleware(c, a, set("withheld-on-fetch", "restore", "accept-encoding-override", "location-edits-order", "lifetime-plumbing", "next-restored", "response-built", "forward-once", "upstream-error-propagates"))
@@ -343,12 +351,13 @@ func init() {
 				ruleRewriteSource(c)
 				ruleRewriteChain(c)
 				ruleMergeUnconditional(c)
+				ruleWildcardGroup(c)
 				ruleConfigValueVerbatim(c)
 				ruleChainOrder(c, a)
 			})
 		})
 	register("C16",
-		"Decides that the two ways a configuration reaches a running object agree: NewServer and Update compute the same value from the option for every field both assign (only the documented restart-only fields are construction-only); main.update applies every section of the configuration just read, each referenced section before the ones that name it, and then starts the servers; every registry's reset removes names that disappeared (or replaces the collection wholesale) on every path, an empty configuration included, and the shared delete helper visits every key; surviving caches are kept; persistent stores are closed only by package store (they are registry singletons that are never re-opened); every configured upstream and compress profile is replaced by one freshly built from the new options; only instances no longer in service are destroyed; removed servers are closed; the proxy resolves the server's locations, and the cache middleware the server's cache, per request (nothing captured when the handler was built); a server is marked as listening only after net.Listen succeeded, so a failed start is retried by the next update; starting the server list visits and starts every registered server; closing a listening server clears that flag and closes its HTTP server and listener; the package-level entry points main.update calls hand the configuration, converted by the package's converter, to the one default registry. The file watcher recognises a write by masking the event's bit set, calls back on every write event and leaves its loop only when the watcher is closed. Differential behaviour of two live processes and in-flight requests during the swap are not decided.",
+		"Decides that the two ways a configuration reaches a running object agree: NewServer and Update compute the same value from the option for every field both assign (only the documented restart-only fields are construction-only); main.update applies every section of the configuration just read, each referenced section before the ones that name it, and then starts the servers; every registry's reset removes names that disappeared (or replaces the collection wholesale) on every path, an empty configuration included, and the shared delete helper visits every key; surviving caches are kept; persistent stores are closed only by package store (they are registry singletons that are never re-opened); every configured upstream and compress profile is replaced by one freshly built from the new options; only instances no longer in service are destroyed; removed servers are closed; the proxy resolves the server's locations, and the cache middleware the server's cache, per request (nothing captured when the handler was built); a server is marked as listening only after net.Listen succeeded, so a failed start is retried by the next update; starting the server list visits and starts every registered server; closing a listening server clears that flag, stops the handler that actually serves (GracefulClose, or shutting down the http.Server it runs in) and closes the listener; the package-level entry points main.update calls hand the configuration, converted by the package's converter, to the one default registry. The file watcher recognises a write by masking the event's bit set, calls back on every write event and leaves its loop only when the watcher is closed. Differential behaviour of two live processes and in-flight requests during the swap are not decided.",
 		nil, func(c *Ctx) {
 			ruleCtorUpdateAgree(c)
 			ruleConverters(c)
@@ -376,11 +385,13 @@ func init() {
 			ruleForwarders(c, "cache", "location", "server", "compress")
 		})
 	register("C19",
-		"Decides pike's wiring of the health-checked pool (the pool itself lives in the dependency github.com/vicanso/upstream): servers marked backup are registered as backups and only those, each with its own address; policy and ping path reach the pool exactly as configured (the converter copies them unedited); a health check runs before a pool is published and periodically after; a reload never stops the health check of an instance that stays in service; pike never writes into or appends onto the server list the pool hands out; the proxy target is only what the pool's Next() returned (no fixed target is configured, and the picker asks the pool for nothing else, so no request runs or waits for a health check) and 'no healthy server' is a 5xx error. The fault-sequence quantifier (up/down timing, recovery, even distribution) is run-time behaviour of the dependency and the network: not applicable.",
+		"Decides pike's wiring of the health-checked pool (the pool itself lives in the dependency github.com/vicanso/upstream): servers marked backup are registered as backups and only those, each with its own address; policy and ping path reach the pool exactly as configured (the converter copies them unedited); a health check runs before a pool is published and periodically after; a reload never stops the health check of an instance that stays in service; pike never writes into or appends onto the server list the pool hands out; the upstream transport uses no environment proxy; a wrapper around the reverse proxy always calls it; the proxy target is only what the pool's Next() returned (no fixed target is configured, and the picker asks the pool for nothing else, so no request runs or waits for a health check) and 'no healthy server' is a 5xx error. The fault-sequence quantifier (up/down timing, recovery, even distribution) is run-time behaviour of the dependency and the network: not applicable.",
 		[]string{"github.com/vicanso/upstream: Next() returns only servers whose last health check passed, backups only when no primary is healthy"}, func(c *Ctx) {
 			withAnchors(c, func(a *serverAnchors) {
 				ruleUpstreamCtor(c)
 				ruleYAMLTable(c)
+				ruleTransportUnbounded(c)
+				ruleProxyHandlerDirect(c)
 				rulePickerOnly(c)
 				rulePoolFields(c)
 				ruleUpstreamContract(c)
@@ -395,7 +406,7 @@ func init() {
 			})
 		})
 	register("C17",
-		"Decides that Validate runs field validation first and checks each of the four reference relations on exactly the (referrer field, referenced name) pair, per referrer, returning its error; that a reference whose run-time lookup can come back nil (the server's cache, the location's upstream) cannot be left empty in an accepted configuration; that the run-time lookups go to the same default registries the reload fills and are made per request with the server's current settings; that each configuration back end reads, writes and watches one and the same location, writes the bytes it is given, and that Read decodes the bytes it read into the configuration it returns; that Write stores the YAML of the configuration only after Validate returned nil and never reports success without writing; that no configuration field is lost or merged by the YAML/JSON field table, the YAML key of every field is its documented (JSON) key and the shipped pike.yml uses known keys only; that the admin handlers write configuration entries back only as copies of the entries they annotate; that a path accepted by the path validator starts with '/'; that lists of validated structs are validated element-wise (dive) and Validate never reports success from inside one of its loops; that no back-end method rewrites the configured location before using it; that every validate tag is registered and every place that leniently parses a configuration field uses the parser its validator uses (including a value the upstream library parses on pike's behalf). Quoting behaviour of the YAML library is not decided.",
+		"Decides that Validate runs field validation first and checks each of the four reference relations on exactly the (referrer field, referenced name) pair, per referrer, returning its error; that a reference whose run-time lookup can come back nil (the server's cache, the location's upstream) cannot be left empty in an accepted configuration; that the run-time lookups go to the same default registries the reload fills and are made per request with the server's current settings; that each configuration back end reads, writes and watches one and the same location, writes the bytes it is given, and that Read decodes the bytes it read into the configuration it returns; that Write stores the YAML of the configuration only after Validate returned nil, unedited in between, and never reports success without writing; that no configuration field is lost or merged by the YAML/JSON field table, the YAML key of every field is its documented (JSON) key and the shipped pike.yml uses known keys only; that the admin handlers write configuration entries back only as copies of the entries they annotate; that a path accepted by the path validator starts with '/'; that lists of validated structs are validated element-wise (dive) and Validate never reports success from inside one of its loops; that no back-end method rewrites the configured location before using it; that every validate tag is registered and every place that leniently parses a configuration field uses the parser its validator uses (including a value the upstream library parses on pike's behalf). Quoting behaviour of the YAML library is not decided.",
 		nil, func(c *Ctx) {
 			ruleValidateRefs(c)
 			ruleRequiredRefs(c)
